@@ -38,7 +38,7 @@
    the old record (C01-unchanged-keeps-metadata), an empty payload is a size-0
    needle (no metadata, delete is a no-op, lost on reload). *)
 EXTENDS ReplWrite, Json
-CONSTANTS N, Keys, Cookies, Datas, MetaSet, VTtl, MaxOps, BKF, AckMissing, WithTransient, Faults, NoCountCheck
+CONSTANTS N, Keys, Cookies, Datas, MetaSet, VTtl, MaxOps, BKF, AckMissing, WithTransient, Faults, NoCountCheck, WithRace
 VARIABLES live, ro, cache, phase, hist
 ivars == <<live, ro, cache, phase, hist>>
 vars == <<ivars, avars>>
@@ -88,6 +88,17 @@ Upload(to, k, c, d, m, T) ==
                 ELSE [r \in Reps |-> IF (r = to /\ own) \/ (r \in remote /\ rres[r] = "ok")
                                      THEN CopyWrite(live[r], k, c, d, m) ELSE live[r]]
      /\ AUpload(to, k, c, d, VTtl, res)
+
+(* ---------------- two POSTs for one file id at the same time ---------------- *)
+(* Both handlers run ReplicatedWrite concurrently: each copy sees the two writes (one as a local write or as a
+   replicate request, the other likewise) in an order of its own - nothing orders a primary's local write and
+   its fan-out against the other request.  Modelled with every copy in service and writable (both succeed). *)
+Race(to1, to2, k, c, d1, d2, m) ==
+  /\ InService = Reps /\ \A r \in Reps : ~ro[r]
+  /\ d1 # d2
+  /\ cache' = CacheAfter
+  /\ \E last \in [Reps -> {d1, d2}] : live' = [r \in Reps |-> [live[r] EXCEPT ![k] = Blob(c, last[r], m)]]
+  /\ ARace(k, c, d1, d2, "ok", "ok")
 
 (* ---------------- DELETE /vid,fid at server `to` ---------------- *)
 Delete(to, k, c, T) ==
@@ -147,6 +158,11 @@ Op ==
             /\ Delete(to, k, c, T)
             /\ hist' = Append(hist, [ev |-> "delete", to |-> to, k |-> k, c |-> c])
             /\ UNCHANGED ro
+     \/ \E to1 \in Reps, to2 \in Reps, k \in Keys, c \in Cookies, d1 \in Datas \ {"e"}, d2 \in Datas \ {"e"}, m \in MetaSet :
+            /\ WithRace
+            /\ Race(to1, to2, k, c, d1, d2, m)
+            /\ hist' = Append(hist, [ev |-> "race", k |-> k, c |-> c, to1 |-> to1, d1 |-> d1, to2 |-> to2, d2 |-> d2])
+            /\ UNCHANGED ro
      \/ \E kind \in Faults, r \in Reps :
             /\ Fault(kind, r)
             /\ hist' = Append(hist, [ev |-> "fault", kind |-> kind, r |-> r])
@@ -168,7 +184,7 @@ Agreement ==
 TypeOK == /\ member \subseteq Reps /\ mounted \subseteq member
           /\ cache = NoCache \/ cache \subseteq Reps
 
-View == <<live, ro, cache, member, mounted, need, IF hist = <<>> THEN <<>> ELSE hist[Len(hist)]>>
+View == <<phase, live, ro, cache, member, mounted, need, IF hist = <<>> THEN <<>> ELSE hist[Len(hist)]>>
 Emit == (phase = "op" /\ Len(hist) = MaxOps) => PrintT(<<"W", ToJson(hist)>>)
 EmitW == (phase = "snap" /\ hist # <<>>) => PrintT(<<"W", ToJson(hist)>>)
 =============================================================================
